@@ -6,6 +6,6 @@ R=${TRY_REPO:-/repo}
 cd $R || exit 2
 git status --short | grep -q . && { echo "repo not clean"; exit 2; }
 git apply "$patch" || { echo "patch does not apply"; exit 2; }
-cd /verif && VERIF_EVIDENCE_DIR=/tmp/gosmt-evidence ./check "$id" --repo $R "$@" > /tmp/try_$id.log 2>&1; rc=$?
+cd /verif && VERIF_EVIDENCE_DIR=/tmp/gosmt-evidence$TRY_TAG ./check "$id" --repo $R "$@" > /tmp/try_$id$TRY_TAG.log 2>&1; rc=$?
 git -C $R checkout -- . 
-echo "exit=$rc"; grep -E "^VIOLATION|counterexample|^KNOWN|^C[0-9]+ " /tmp/try_$id.log | cut -c1-300 | head -8
+echo "exit=$rc"; grep -E "^VIOLATION|counterexample|^KNOWN|^C[0-9]+ " /tmp/try_$id$TRY_TAG.log | cut -c1-300 | head -8
